@@ -15,6 +15,7 @@ import (
 	"encoding/binary"
 	"encoding/xml"
 	"fmt"
+	"io"
 	"math"
 	"os"
 	"sort"
@@ -883,6 +884,61 @@ func genC17(r *Rng, e *Emitter, n int) {
 			e.emit("C17.call", desc[i], fmt.Sprintf("(m (%d %d %d %d) ())", len(calls), 4, diff, 0))
 		}
 	}
+	// several decodes in flight at the same moment, each of a deeply nested collection, each through a
+	// reader that waits until all of them are at their deepest: what one call accepts alone it accepts
+	// whatever the others are in the middle of
+	for _, ew := range []bool{false, true} {
+		root := "encoding/wkb.Unmarshal"
+		if ew {
+			root = "encoding/ewkb.Unmarshal"
+		}
+		for _, depth := range []int{600, 4000} {
+			data := c17DeepChain(depth)
+			read := func(rd io.Reader) string {
+				var g geom.T
+				var err error
+				if ew {
+					g, err = ewkb.Read(rd)
+				} else {
+					g, err = wkb.Read(rd)
+				}
+				if err != nil {
+					return "(err)"
+				}
+				d := 0
+				for {
+					gc, ok := g.(*geom.GeometryCollection)
+					if !ok || gc.NumGeoms() != 1 {
+						break
+					}
+					g = gc.Geom(0)
+					d++
+				}
+				return fmt.Sprintf("(ok %d %s)", d, snapGeom(g))
+			}
+			desc := fmt.Sprintf("(%s deep-chain-in-flight %d)", root, depth)
+			e.pending("C17.batch", "("+desc+")")
+			solo := guard(func() string { return read(bytes.NewReader(data)) })
+			const K = 5
+			bar := &c17Barrier{want: K, ch: make(chan struct{})}
+			fs := make([]func() string, K)
+			for k := range fs {
+				fs[k] = func() string {
+					rd := &c17HoldReader{data: data, hold: len(data) - 4, bar: bar}
+					defer rd.arrive()
+					return read(rd)
+				}
+			}
+			diff := 0
+			for _, got := range concurrently(fs) {
+				if got != solo {
+					diff++
+				}
+			}
+			e.tally("deep-chain-in-flight")
+			e.emit("C17.call", desc, fmt.Sprintf("(m (%d %d %d %d) ())", K, 1, diff, 0))
+		}
+	}
 	for e.count < n {
 		switch {
 		case r.chance(1, 6):
@@ -968,4 +1024,64 @@ func containsInt(xs []int, k int) bool {
 		}
 	}
 	return false
+}
+
+// c17DeepChain: the NDR WKB of POINT(1 2) inside depth single-member GeometryCollections (the same
+// bytes are WKB and EWKB).
+func c17DeepChain(depth int) []byte {
+	var b []byte
+	for i := 0; i < depth; i++ {
+		b = append(b, 1, 7, 0, 0, 0, 1, 0, 0, 0)
+	}
+	b = append(b, 1, 1, 0, 0, 0)
+	b = binary.LittleEndian.AppendUint64(b, math.Float64bits(1))
+	b = binary.LittleEndian.AppendUint64(b, math.Float64bits(2))
+	return b
+}
+
+type c17Barrier struct {
+	mu   sync.Mutex
+	n    int
+	want int
+	ch   chan struct{}
+}
+
+// c17HoldReader delivers data up to hold, then waits until every reader of the barrier has got there
+// (or has given up) before delivering the rest.
+type c17HoldReader struct {
+	data    []byte
+	pos     int
+	hold    int
+	arrived bool
+	bar     *c17Barrier
+}
+
+func (h *c17HoldReader) arrive() {
+	if h.arrived {
+		return
+	}
+	h.arrived = true
+	h.bar.mu.Lock()
+	h.bar.n++
+	if h.bar.n == h.bar.want {
+		close(h.bar.ch)
+	}
+	h.bar.mu.Unlock()
+}
+
+func (h *c17HoldReader) Read(p []byte) (int, error) {
+	if h.pos >= len(h.data) {
+		return 0, io.EOF
+	}
+	if h.pos == h.hold {
+		h.arrive()
+		<-h.bar.ch
+	}
+	end := len(h.data)
+	if h.pos < h.hold {
+		end = h.hold
+	}
+	n := copy(p, h.data[h.pos:end])
+	h.pos += n
+	return n, nil
 }
